@@ -439,7 +439,9 @@ func c11Elem(c *Ctx, F *model.Fields, fn *ssa.Function, elem string, tok string,
 		for _, b := range fn.Blocks {
 			for _, in := range b.Instrs {
 				if al, ok := in.(*ssa.Alloc); ok {
-					if pt, ok := al.Type().Underlying().(interface{ Elem() interface{ String() string } }); ok {
+					if pt, ok := al.Type().Underlying().(interface {
+						Elem() interface{ String() string }
+					}); ok {
 						_ = pt
 					}
 					if strings.HasSuffix(al.Type().String(), "html.Attribute") && !strings.Contains(al.Type().String(), "[") {
